@@ -138,7 +138,15 @@ func (o *c09) Step(r *StepRec) []Violation {
 					(a.Kind == KEndBlock && !p0.SuperMode && isCandidate(pre, r.Height, id))
 				if a.Kind == KEndBlock {
 					o.hit("paused_by_end_block")
+					if o.w.cfg.Reactive && p0.ModuleName != "" && p0.Repeated {
+						// the module killed the context when it was notified: completed is final
+						legal = false
+					}
 				}
+			case a.Kind == KEndBlock && o.w.cfg.Reactive && p0.State == stRunning && p1.State == stCompleted:
+				// killed by its module from inside the "cannot pay" notification
+				legal = p0.ModuleName != "" && p0.Repeated && !p0.SuperMode && isCandidate(pre, r.Height, id)
+				o.hit("killed_by_module_in_state_callback")
 			case p0.State == stPaused && p1.State == stRunning:
 				legal = targeted && (a.Kind == KStart || a.Kind == KModStart)
 			case p0.State != stCompleted && p1.State == stCompleted:
